@@ -864,7 +864,6 @@ func isIntPhi(ph *ssa.Phi) bool {
 	return ok && b.Info()&types.IsInteger != 0
 }
 
-
 // listSourceCall finds the call whose result a returned list is: the call itself, or — looking
 // through a defensive copy (`out := make(…); copy(out, src)`), a boolean-guarded memo field of the
 // repository (every store to the field in the package is followed) and phis — the single call all
@@ -944,7 +943,6 @@ func listSourceCall(p *load.Program, f *ssa.Function, v ssa.Value, depth int) *s
 	}
 	return nil
 }
-
 
 // isRecvField: fa addresses a field directly of the receiver object (not of a nested struct).
 func isRecvField(fa *ssa.FieldAddr, recv ssa.Value) bool {
